@@ -305,14 +305,23 @@ def codec_parts(ctx):
     sr = StreamReader(_Proto(), 2 ** 16, loop=loop)
     reader = multipart.MultipartReader({"Content-Type": "multipart/mixed; boundary=b"}, sr)
 
-    async def read_tree(rd):
+    # how much of a nested body the consumer looks at before it asks the parent for the next part
+    nested_mode = ctx.pick("nested_consumption", ["all", "skip", "first-only"]) if nested else "all"
+
+    async def read_tree(rd, top=True):
         out = []
         while True:
             part = await rd.next()
             if part is None:
                 break
             if isinstance(part, multipart.MultipartReader):
-                out.append(await read_tree(part))
+                if nested_mode == "skip":
+                    out.append("skipped")
+                elif nested_mode == "first-only":
+                    first = await part.next()
+                    out.append([bytes(await first.read(decode=True))])
+                else:
+                    out.append(await read_tree(part, False))
             else:
                 out.append(bytes(await part.read(decode=True)))
         return out
@@ -337,6 +346,11 @@ def codec_parts(ctx):
         return False, "inv:codec", info
     got = task.result()
     want = ([[content, b"second inner"]] if nested else [content]) + [b"tail part"]
+    if nested and nested_mode == "skip":
+        want[0] = "skipped"
+    elif nested and nested_mode == "first-only":
+        want[0] = [content]
+    info["nested_consumption"] = nested_mode
     if got != want:
         info.update(key="part-content-differs:codec-parts", got=repr(got)[:300], wire=wire.decode("latin1")[:300])
         return False, "inv:codec", info
